@@ -310,13 +310,56 @@ def replay_half(v, cov, tier):
             f"{len(res.get('violations', []))} violations, {res['_wall_s']:.1f}s")
 
 
-def index_family(prop, tier, plans, extra=None):
+def repo_tests_half(v, cov, tier):
+    """Trace validation of the repository's OWN tests (DESIGN 4.1 (c)): the packages that exercise the disk cache are
+    compiled with the verif tag and run with the file sink on (VERIF_TRACE); every index instance a test creates
+    yields one trace, validated against LruTrace.tla with every invariant evaluated after every step.  The tests'
+    assertions are weak; their traces are not.  A failing test is not a verdict of this check (it is recorded);
+    a rejected trace is."""
+    d = tempfile.mkdtemp(prefix="repotests-", dir=scratch())
+    pkgs = ["./cache/disk/"] if tier == "quick" else ["./cache/disk/", "./server/", "./cache/grpcproxy/", "./cache/httpproxy/", "./cache/s3proxy/", "."]
+    env = dict(os.environ, GOFLAGS="-mod=mod", GOPROXY="off", VERIF_TRACE=os.path.join(d, "ev"), TMPDIR=d)
+    for k in ("GOTOOLCHAIN", "GOSUMDB"):
+        env.pop(k, None)
+    import subprocess
+    t0 = time.time()
+    try:
+        p = subprocess.run(["go", "test", "-tags", "verif", "-vet=off", "-count=1", "-timeout", "20m"] + pkgs, cwd=REPO, env=env,
+                           stdout=subprocess.PIPE, stderr=subprocess.STDOUT, text=True, timeout=1500)
+        rc, out = p.returncode, p.stdout
+    except subprocess.TimeoutExpired:
+        rc, out = 124, "timeout"
+    drive_s = time.time() - t0
+    if not glob.glob(os.path.join(d, "ev.*")):
+        raise Machinery(f"the repository's tests built with the verif tag recorded nothing (exit {rc}):\n{out[-2000:]}")
+    tr = os.path.join(scratch(), "repotests.ndjson")
+    r = run_vh(["rawconv", "-in", os.path.join(d, "ev.*"), "-trace", tr, "-maxlines", "20000"])
+    st = r.get("trace") or {}
+    if not st.get("lines"):
+        raise Machinery("the repository's tests recorded no usable trace")
+    tv = validate_trace(tr, parallel=12)
+    collect_trace(v, tv, tr, {"driver": "repotests", "driver_args": pkgs, "kind": "trace"})
+    cov["drivers"].append({"driver": "repository's own tests, verif tag, file sink", "packages": pkgs, "go_test_exit": rc,
+                           "index_instances": r["cases"], "nontrivial": r["nontrivial"], "rule": r["rule"],
+                           "trace_lines": st["lines"], "traces": st["traces"], "events": st.get("by_event"),
+                           "evictions": st.get("evictions"), "skipped": dict(r.get("extra") or {}, beyond_32_bit=st.get("skipped_traces")),
+                           "accepted": tv.get("accepted"), "validate_s": tv.get("wall_s"), "drive_s": round(drive_s, 1)})
+    cov["traces_validated_against_impl"] += st["traces"]
+    cov["trace_lines"] = cov.get("trace_lines", 0) + st["lines"]
+    shutil.rmtree(d, ignore_errors=True)
+    log(f"[conf] repository's own tests ({' '.join(pkgs)}; go test exit {rc}, {drive_s:.0f}s): {st['traces']} index instances, {st['lines']} trace lines, "
+        f"validated={'accepted' if tv.get('accepted') else tv.get('reject')} in {tv.get('wall_s')}s")
+
+
+def index_family(prop, tier, plans, extra=None, repotests=False):
     t0 = time.time()
     cov = new_cov()
     v = Verdict(prop)
     index_models(tier, cov, prop)
     trace_half(v, plans, cov)
     replay_half(v, cov, tier)
+    if repotests:
+        repo_tests_half(v, cov, tier)
     for name, args in (extra or []):
         res = run_vh(args, timeout=7200)
         collect_driver(v, res, {"driver_args": args, "kind": "driver"})
@@ -342,7 +385,7 @@ def c03(prop, tier):
         ("stress", ["stress", "-seed", str(s), "-hists", "4" if q else "24", "-workers", "8"]),
         ("lru", ["lru", "-seed", str(s), "-hists", "40" if q else "600", "-ops", "80"]),
     ]
-    return index_family(prop, tier, plans)
+    return index_family(prop, tier, plans, repotests=not q)
 
 
 @check("C04")
@@ -354,7 +397,7 @@ def c04(prop, tier):
         ("stress", ["stress", "-seed", str(s), "-hists", "4" if q else "24", "-workers", "6"]),
         ("lru", ["lru", "-seed", str(s), "-hists", "40" if q else "600", "-ops", "80"]),
     ]
-    return index_family(prop, tier, plans)
+    return index_family(prop, tier, plans, repotests=True)
 
 
 @check("C05")
